@@ -109,7 +109,7 @@ def rand_cfgspec(rng: random.Random, max_n: int = 6, max_mazes: int = 8, filters
     if big_mazes and rng.random() < big_mazes:
         # dataset sizes on both sides of the library's default size threshold (100), on small grids to stay cheap
         n = rng.randint(min_n, min(max_n, 4))
-        n_mazes = rng.randint(97, 130)
+        n_mazes = rng.randint(97, 130) if rng.random() < 0.5 else rng.randint(17, 60)
     kw = rand_ctor_kwargs(rng, gen, n)
     if force == "float_kwargs":
         # make sure the rarer argument class (proportions given as floats) is present in small batches too
@@ -119,7 +119,7 @@ def rand_cfgspec(rng: random.Random, max_n: int = 6, max_mazes: int = 8, filters
         if rng.random() < 0.3:
             kw["accessible_cells"] = rng.choice([1.0, 0.6, 0.9])
     return {
-        "name": rng.choice(["t", "sim", "cache-test", "a b"]),
+        "name": rng.choice(["t", "sim", "cache-test", "a b", "v1.5"]),
         "grid_n": n,
         "n_mazes": n_mazes,
         "maze_ctor": gen,
